@@ -879,7 +879,7 @@ def gen_cases(ctx, quick=None):
     for i in range(80 if quick else 2000):
         cases.append(dict(ops=gen_focus(rng)))
     # copy / move of nodes of the current patch onto / below paths with a past in older containers
-    for i in range(130 if quick else 3000):
+    for i in range(130 if quick else 2000):
         cases.append(dict(ops=gen_relocate(rng)))
     return cases
 
